@@ -12,13 +12,18 @@ import (
 // ParseFile parses a DSL file and returns a slice of Packet models or an error.
 func ParseFile(filename string) (interface{}, error) {
 	// Create a new parser by reading the file
-	parser, _, err := NewPacketDslParserByFile(filename)
+	parser, stream, err := NewPacketDslParserByFile(filename)
 	if err != nil {
 		return nil, err
 	}
 	listener := NewSyntaxErrorListener()
 	parser.RemoveErrorListeners()
 	parser.AddErrorListener(listener)
+	// characters no token matches are syntax errors too: the lexer would silently skip them
+	if lexer, ok := stream.GetTokenSource().(*gen.PacketDslLexer); ok {
+		lexer.RemoveErrorListeners()
+		lexer.AddErrorListener(listener)
+	}
 	// Invoke the root rule 'Packet' to parse the file
 	tree := parser.Packet()
 	if listener.HasErrors() {
